@@ -141,6 +141,7 @@ def run(tier, seed):
     ty = [{"tokens": f["tokens"]} for f in facts if FX.typeable(f["tokens"])]
     nlit, ntrip = (600, 700) if tier == "quick" else (3000, 9000)
     payloads = [{"seed": seed, "shard": i, "facts": ty[i::NCPU] if tier == "quick" else ty, "n_lit": nlit, "n_triples": ntrip, "bin": bins["dbg"], "kind": "dbg"} for i in range(NCPU)]
+    payloads += [{"seed": seed, "shard": 100 + i, "facts": ty[i::NCPU], "n_lit": nlit // 3, "n_triples": ntrip // 3, "bin": bins["rel"], "kind": "rel"} for i in range(NCPU)]
     acc = run_shards(shard, payloads)
     acc.counters["typeable_facts"] = len(ty)
     return finish(PID, tier, seed, "exploration", acc, RULE, t0,
